@@ -1,8 +1,9 @@
-(** C19 — graph algorithms: the mathematical specifications (Props only; nothing here is
-    computed by the check).  A graph is a list of nodes and a list of directed edges
+(** C19 — graph algorithms: the mathematical specifications (Props; the check computes nothing
+    from here except the two edge filters [without_pair] / [without_node] and the binary64 decoder
+    [f64_scaled] of the last sections, which the specifications themselves are stated with).  A graph is a list of nodes and a list of directed edges
     (source, target, identifier, integer weight); multigraphs, self-loops, isolated nodes are all
     admitted.  The harness uses integer weights, so the implementation's f64 sums are exact. *)
-From Coq Require Import ZArith List Bool Lia Relations Permutation.
+From Coq Require Import ZArith List Bool Lia Relations Permutation QArith Qabs.
 Import ListNotations.
 Open Scope Z_scope.
 
@@ -102,3 +103,72 @@ Definition maxflow_spec (g : graph) (s t val : Z) : Prop :=
   (forall f, feasible g s t f -> flow_value g s f <= val) /\
   (exists S, is_cut s t S /\ cut_cap g S = val) /\
   (forall S, is_cut s t S -> val <= cut_cap g S).
+
+(** * The undirected simple view (structure algorithms treat the graph as undirected) *)
+(** [u] and [v] are joined by an edge in one direction or the other ([u = v]: a self-loop) *)
+Definition joined (g : graph) (u v : Z) : Prop :=
+  exists e, In e (edges g) /\ ((esrc e = u /\ edst e = v) \/ (esrc e = v /\ edst e = u)).
+Definition adjacent (g : graph) (u v : Z) : Prop := u <> v /\ joined g u v.
+(** [c] is the number of objects satisfying [P] *)
+Definition counts {A : Type} (P : A -> Prop) (c : Z) : Prop :=
+  exists l, NoDup l /\ (forall x, In x l <-> P x) /\ Z.of_nat (length l) = c.
+
+(** ** Triangles: three distinct, pairwise adjacent nodes *)
+(** the triangles through [v] are the unordered pairs {a, b} of nodes adjacent to [v] and to each other *)
+Definition tri_at (g : graph) (v : Z) (ab : Z * Z) : Prop :=
+  fst ab < snd ab /\ adjacent g v (fst ab) /\ adjacent g v (snd ab) /\ adjacent g (fst ab) (snd ab).
+Definition tri_count_spec (g : graph) (v c : Z) : Prop := counts (tri_at g v) c.
+Definition tri_total_spec (g : graph) (c : Z) : Prop :=
+  counts (fun t : Z * Z * Z => fst (fst t) < snd (fst t) /\ snd (fst t) < snd t /\
+            adjacent g (fst (fst t)) (snd (fst t)) /\ adjacent g (snd (fst t)) (snd t) /\ adjacent g (fst (fst t)) (snd t)) c.
+(** number of distinct neighbours (other than the node itself) *)
+Definition degree_spec (g : graph) (v k : Z) : Prop := counts (adjacent g v) k.
+(** local clustering coefficient = triangles through v / (k choose 2), 0 when k < 2; as a rational *)
+Definition lcc_spec (g : graph) (v : Z) (q : Q) : Prop :=
+  exists t k, tri_count_spec g v t /\ degree_spec g v k /\
+    (if k <? 2 then q == 0 else q == inject_Z t / inject_Z (k * (k - 1) / 2))%Q.
+
+(** ** k-core.  [S] is k-dense: every member is joined to at least [k] distinct members of [S]
+    (convention of kcore_decomposition's adjacency sets: parallel edges count once, a self-loop makes
+    a node one of its own neighbours).  The core number of [v] is the largest [k] such that [v] lies
+    in a k-dense set. *)
+Definition dense (g : graph) (k : Z) (S : list Z) : Prop :=
+  incl S (nodes g) /\
+  forall v, In v S -> exists l, NoDup l /\ incl l S /\ (forall u, In u l -> joined g v u) /\ k <= Z.of_nat (length l).
+Definition core_spec (g : graph) (v k : Z) : Prop :=
+  (exists S, dense g k S /\ In v S) /\ (forall S, dense g (k + 1) S -> ~ In v S).
+
+(** ** Bridges: adjacent pairs that are disconnected once every edge between them is removed *)
+Definition without_pair (E : list edge) (a b : Z) : list edge :=
+  filter (fun e => negb (((esrc e =? a) && (edst e =? b)) || ((esrc e =? b) && (edst e =? a)))) E.
+Definition bridge (g : graph) (a b : Z) : Prop :=
+  adjacent g a b /\ ~ uconn (without_pair (edges g) a b) a b.
+(** the answer lists every bridge exactly once, in one orientation *)
+Definition bridges_spec (g : graph) (l : list (Z * Z)) : Prop :=
+  NoDup l /\ (forall a b, In (a, b) l -> ~ In (b, a) l) /\
+  forall a b, bridge g a b <-> (In (a, b) l \/ In (b, a) l).
+
+(** ** Articulation points: nodes whose removal disconnects two other nodes that were connected *)
+Definition without_node (E : list edge) (v : Z) : list edge :=
+  filter (fun e => negb ((esrc e =? v) || (edst e =? v))) E.
+Definition cut_vertex (g : graph) (v : Z) : Prop :=
+  In v (nodes g) /\ exists a b, In a (nodes g) /\ In b (nodes g) /\ a <> v /\ b <> v /\
+    uconn (edges g) a b /\ ~ uconn (without_node (edges g) v) a b.
+Definition artic_spec (g : graph) (l : list Z) : Prop := NoDup l /\ forall v, In v l <-> cut_vertex g v.
+
+(** * PageRank: the scores form a probability distribution *)
+Definition qsum (l : list Q) : Q := fold_right Qplus 0%Q l.
+Definition distribution (l : list Q) : Prop := (forall x, In x l -> (0 <= x)%Q) /\ (qsum l == 1)%Q.
+Definition approx_distribution (eps : Q) (l : list Q) : Prop :=
+  (forall x, In x l -> (0 <= x)%Q) /\ (Qabs (qsum l - 1) <= eps)%Q.
+(** the real number denoted by a finite IEEE-754 binary64 bit pattern, as an integer multiple of
+    2^-1074 (None: infinity or NaN) *)
+Definition f64_scaled (b : Z) : option Z :=
+  let s := (b / 2 ^ 63) mod 2 in
+  let e := (b / 2 ^ 52) mod 2 ^ 11 in
+  let m := b mod 2 ^ 52 in
+  if e =? 2047 then None
+  else let mag := if e =? 0 then m else (2 ^ 52 + m) * 2 ^ (e - 1) in
+       Some (if s =? 1 then - mag else mag).
+Definition two1074 : positive := Pos.pow 2 1074.
+Definition f64_val (b : Z) : option Q := option_map (fun z => z # two1074) (f64_scaled b).
